@@ -523,6 +523,63 @@ func c18Explore(r *vlib.Run, sc c18Scenario, bound, maxExecs int) {
 	r.Distinct("nontrivial", "scenario|"+sc.name)
 }
 
+// c18ManyKeys: caches with hundreds of entries (the map of a cache is re-created when a cleaning pass leaves a
+// small fraction of a big map). n1 entries are loaded into one generation, n2 into the next, the limit is chosen
+// so that one pass evicts exactly the first generation; afterwards the survivors are live, hold their values, are
+// served without another load, and the accounted size is their sum.
+func c18ManyKeys(r *vlib.Run) {
+	probe := NewCleaner(1<<30, nil)
+	pc := NewCache[int](probe, nil)
+	pc.Get(7, func() (int, int) { return 7, 8 })
+	per := probe.getSize()
+	for _, n1 := range []int{20, 150, 199, 200, 201, 250, 400} {
+		for _, n2 := range []int{1, 10, 19, 20, 21, 22, 40, 60} {
+			r.Add("evaluations", 1)
+			r.Add("many_key_cases", 1)
+			sig := fmt.Sprintf("many keys: %d entries in the evicted generation, %d survivors", n1, n2)
+			cl := NewCleaner(per*uint64(n1+n2-1), nil)
+			c := NewCache[int](cl, nil)
+			for k := 1; k <= n1; k++ {
+				k := k
+				c.Get(uint32(k), func() (int, int) { return 1000 + k, 8 })
+			}
+			cl.Rotate()
+			for k := n1 + 1; k <= n1+n2; k++ {
+				k := k
+				c.Get(uint32(k), func() (int, int) { return 1000 + k, 8 })
+			}
+			cl.Rotate()
+			cl.Cleanup(&CleanStat{})
+			if sz := cl.getSize(); sz > cl.SizeLimit() {
+				r.Violation(sig+": the pass leaves the accounted size over the limit", c18Case{}, fmt.Sprintf("%d > %d", sz, cl.SizeLimit()))
+				continue
+			}
+			var live uint64
+			for _, e := range c.payload {
+				live += e.size
+			}
+			if acc := cl.getSize(); acc != live {
+				r.Violation(sig+": accounted size != sum of live entries", c18Case{}, fmt.Sprintf("accounted %d, live %d (%d entries in the map)", acc, live, len(c.payload)))
+				continue
+			}
+			reloads := 0
+			for k := n1 + 1; k <= n1+n2; k++ {
+				k := k
+				if _, ok := c.payload[uint32(k)]; !ok {
+					continue // evicted by the pass: allowed (the pass may take more than the first generation)
+				}
+				if v := c.Get(uint32(k), func() (int, int) { reloads++; return -1, 8 }); v != 1000+k {
+					r.Violation(sig+": a surviving entry holds another value", c18Case{}, fmt.Sprintf("key %d: %d", k, v))
+				}
+			}
+			if reloads > 0 {
+				r.Violation(sig+": a live entry was loaded again", c18Case{}, fmt.Sprint(reloads))
+			}
+			r.Distinct("nontrivial", sig)
+		}
+	}
+}
+
 func TestVerifC18(t *testing.T) {
 	r := vlib.NewRun("C18")
 	var rc c18Case
@@ -558,6 +615,7 @@ func TestVerifC18(t *testing.T) {
 		fmt.Sscanf(s, "%d", &depth)
 	}
 	c18BFS(r, depth)
+	c18ManyKeys(r)
 	r.Sample(c18Case{Seq: []string{"newcache", "get:0:2", "get:1:2", "rotate", "release:0", "releasebuckets", "cleanup"}})
 	for _, sc := range c18Scenarios() {
 		c18Explore(r, sc, bound, 3_000_000)
@@ -565,7 +623,7 @@ func TestVerifC18(t *testing.T) {
 	}
 	ev := r.Get("evaluations")
 	r.Finish(t, "model_checking",
-		fmt.Sprintf("(a) explicit-state BFS to depth %d from one cleaner (limit %d B) and one cache: operations get / failing get / panicking get (keys 1,2) / Rotate / Cleanup / CleanEmptyGenerations / ReleaseBuckets / Release(c) / NewCache (<=3 caches); successor = replay of the path on a fresh instance + 1 op; canonical state = generation sizes+stale flags, per cache (released, managed, current generation rank, key->size@generation rank); invariants in every state: returned value = loader value, failed/panicked load (panic inside Get for key 1, inside GetWithError for key 2) reported and next lookup reloads without blocking, accounted size = sum of live entries, every live cache managed, size <= limit right after Cleanup. (b) all interleavings with <=%d preemptions (-1 = unbounded) of 8 three-thread scenarios (same key twice, failing, panicking, release, release of the cache sharing the generation of an in-flight load, and an entry evicted while its ok / failing / panicking loader runs followed by a second lookup of the key) with a cleaner pass; loaders contain a scheduling point; invariants at quiescence. distinct_nontrivial = distinct canonical states + scenarios", depth, c18Limit, bound),
+		fmt.Sprintf("(a0) 56 many-key cases: n1 in {20..400} entries in one generation, n2 in {1..60} in the next, one pass evicts the first: survivors live, valued, not reloaded, accounted = sum; (a) explicit-state BFS to depth %d from one cleaner (limit %d B) and one cache: operations get / failing get / panicking get (keys 1,2) / Rotate / Cleanup / CleanEmptyGenerations / ReleaseBuckets / Release(c) / NewCache (<=3 caches); successor = replay of the path on a fresh instance + 1 op; canonical state = generation sizes+stale flags, per cache (released, managed, current generation rank, key->size@generation rank); invariants in every state: returned value = loader value, failed/panicked load (panic inside Get for key 1, inside GetWithError for key 2) reported and next lookup reloads without blocking, accounted size = sum of live entries, every live cache managed, size <= limit right after Cleanup. (b) all interleavings with <=%d preemptions (-1 = unbounded) of 8 three-thread scenarios (same key twice, failing, panicking, release, release of the cache sharing the generation of an in-flight load, and an entry evicted while its ok / failing / panicking loader runs followed by a second lookup of the key) with a cleaner pass; loaders contain a scheduling point; invariants at quiescence. distinct_nontrivial = distinct canonical states + scenarios", depth, c18Limit, bound),
 		map[string]any{
 			"states":                        r.Get("bfs_states") + int64(r.DistinctCount("outcomes")),
 			"transitions":                   ev,
